@@ -42,6 +42,12 @@ func c05Case(r *evid.Run, tier string, idx int, g *rng.R) {
 	for i := 0; i < 6; i++ {
 		vals = append(vals, genNumericString(g))
 	}
+	// long numerals: as node text, as strings, and the double they denote as a number operand
+	var longs []string
+	for i := 0; i < 3; i++ {
+		longs = append(longs, genLongNumeral(g))
+	}
+	vals = append(vals, longs...)
 	big := idx%10 == 9
 	if big {
 		// large node-sets (size products beyond a few thousand pairs)
@@ -124,6 +130,20 @@ func c05Case(r *evid.Run, tier string, idx int, g *rng.R) {
 	for i := 0; i < 6; i++ {
 		f := genDouble(g)
 		pool = append(pool, operand{f, xsel.Number(f), "number:" + dclass(f), nil})
+	}
+	for _, s := range longs {
+		f := refeval.StringToNumber(s)
+		pool = append(pool, operand{f, xsel.Number(f), "number:value-of-a-long-numeral", nil}, operand{s, xsel.String(s), "string:long-numeral", nil})
+	}
+	if len(longs) > 0 {
+		// a singleton node-set holding the first long numeral, so that node = number is decided on it alone
+		for k, v := range vals {
+			if v == longs[0] {
+				ns := refeval.NodeSet{vnodes[k]}
+				pool = append(pool, operand{ns, w.m.Lib(ns), "node-set:long-numeral", nil})
+				break
+			}
+		}
 	}
 	for i := 0; i < 6; i++ {
 		s := genNumericString(g)
